@@ -78,7 +78,7 @@ theorem addGene_wft (g : Genome W) (x : Gene W) (hw : WFT g)
   have hmem : ∀ y, y ∈ geneInsert g.genes x ↔ y = x ∨ y ∈ g.genes := fun y => mem_insertAt _ _ _ _
   have hsorted := insertAt_sorted (fun y : Gene W => y.inn) g.genes x hw.wf.genesSorted hinn
   refine ⟨⟨hsorted.1, ?_, hw.wf.nodesSorted, ?_, ⟨?_, hw.wf.traitRefs.2⟩, ?_, insertAt_ne_nil _ _ _, hw.wf.hasOutput,
-           hw.wf.traits⟩, hw.tnz⟩
+           hw.wf.traits⟩, hw.tnz, hw.kinds⟩
   · have hp : (geneInsert g.genes x).Perm (x :: g.genes) := hsorted.2
     have : LinksDistinct (x :: g.genes) := by
       unfold LinksDistinct
@@ -101,7 +101,7 @@ theorem addGene_wft (g : Genome W) (x : Gene W) (hw : WFT g)
 
 /-- inserting (in id order) a node with a new id and a resolving trait reference keeps the genome well-formed -/
 theorem addNode_wft (g : Genome W) (n : Node) (hw : WFT g)
-    (hid : ∀ m ∈ g.nodes, m.id ≠ n.id) (htr : TraitRefOk g n.trait) :
+    (hid : ∀ m ∈ g.nodes, m.id ≠ n.id) (htr : TraitRefOk g n.trait) (hk : n.kind ≤ 3) :
     WFT { g with nodes := nodeInsert g.nodes n } := by
   have hmem : ∀ m, m ∈ nodeInsert g.nodes n ↔ m = n ∨ m ∈ g.nodes := fun m => mem_insertAt _ _ _ _
   have hsorted := insertAt_sorted (fun m : Node => m.id) g.nodes n hw.wf.nodesSorted hid
@@ -110,7 +110,10 @@ theorem addNode_wft (g : Genome W) (n : Node) (hw : WFT g)
     obtain ⟨m, hm, e⟩ := List.mem_map.mp hi
     exact List.mem_map.mpr ⟨m, (hmem m).mpr (Or.inr hm), e⟩
   refine ⟨⟨hw.wf.genesSorted, hw.wf.linksDistinct, hsorted.1, ?_, ⟨hw.wf.traitRefs.1, ?_⟩, ?_, hw.wf.hasGene, ?_,
-           hw.wf.traits⟩, hw.tnz⟩
+           hw.wf.traits⟩, hw.tnz, fun m hm => by
+             rcases (hmem m).mp hm with rfl | h
+             · exact hk
+             · exact hw.kinds m h⟩
   · intro y hy
     exact ⟨hsub _ (hw.wf.endpoints y hy).1, hsub _ (hw.wf.endpoints y hy).2⟩
   · intro m hm
@@ -402,14 +405,15 @@ theorem not_mem_nodeIds_of_hasNode (g : Genome W) (id : Int) (h : g.hasNode id =
 
 /-- the node split: a new hidden node `n` between `a` and `b` with the genes `a → n` and `n → b` -/
 theorem addSplit_wft (g : Genome W) (n : Node) (x1 x2 : Gene W) (hw : WFT g)
-    (hnid : n.id ∉ nodeIds g) (hnk : n.isSensor = false) (hnt : TraitRefOk g n.trait)
+    (hnid : n.id ∉ nodeIds g) (hnh : n.kind = Kind.hidden) (hnt : TraitRefOk g n.trait)
     (h1 : x1.dst = n.id ∧ x1.src ∈ nodeIds g ∧ TraitRefOk g x1.trait)
     (h2 : x2.src = n.id ∧ x2.dst ∈ nodeIds g ∧ TraitRefOk g x2.trait)
     (h2s : ∀ m ∈ g.nodes, m.id = x2.dst → m.isSensor = false)
     (hi1 : ∀ y ∈ g.genes, y.inn ≠ x1.inn) (hi2 : ∀ y ∈ g.genes, y.inn ≠ x2.inn) (hi12 : x1.inn ≠ x2.inn) :
     WFT { g with genes := geneInsert (geneInsert g.genes x1) x2, nodes := nodeInsert g.nodes n } := by
   have hnid' : ∀ m ∈ g.nodes, m.id ≠ n.id := fun m hm e => hnid (List.mem_map.mpr ⟨m, hm, e⟩)
-  have w2 := addNode_wft g n hw hnid' hnt
+  have hnk : n.isSensor = false := by unfold Node.isSensor; rw [hnh]; rfl
+  have w2 := addNode_wft g n hw hnid' hnt (by rw [hnh]; decide)
   have hmemN : ∀ m, m ∈ nodeInsert g.nodes n ↔ m = n ∨ m ∈ g.nodes := fun m => mem_insertAt _ _ _ _
   have hsubN : ∀ i ∈ nodeIds g, i ∈ nodeIds ({ g with nodes := nodeInsert g.nodes n } : Genome W) := by
     intro i hi
